@@ -24,7 +24,8 @@ int EvalExpression::run(AsmContext *asm_context, Var &answer, bool is_paren)
   int token_type;
   VarStack var_stack;
   OperStack oper_stack;
-  int count = 0;
+  bool need_operand = true;
+  bool is_closed = false;
 
   while (true)
   {
@@ -50,7 +51,7 @@ int EvalExpression::run(AsmContext *asm_context, Var &answer, bool is_paren)
     if (IS_TOKEN(token, '('))
     {
       // This is probably the x(r12) case.. so this is actually okay.
-      if (need_symbol(count))
+      if (need_operand == false)
       {
         tokens_push(asm_context, token, token_type);
         break;
@@ -58,8 +59,8 @@ int EvalExpression::run(AsmContext *asm_context, Var &answer, bool is_paren)
 
       Var var;
       if (run(asm_context, var, true) != 0) { return -1; }
-      var_stack.push(var);
-      count++;
+      if (var_stack.push(var) != 0) { return -1; }
+      need_operand = false;
     }
       else
     if (IS_TOKEN(token, ')'))
@@ -72,6 +73,7 @@ int EvalExpression::run(AsmContext *asm_context, Var &answer, bool is_paren)
         break;
       }
 
+      is_closed = true;
       break;
     }
       else
@@ -94,42 +96,35 @@ int EvalExpression::run(AsmContext *asm_context, Var &answer, bool is_paren)
       else
     if (token_type == TOKEN_NUMBER)
     {
-      // 0: empty
-      // 1: num
-      // 2:   oper
-      // 3: num
-      // 4:   oper
-      // 5: (num)
-
-      if (need_symbol(count) || var_stack.size() == 3)
+      if (need_operand == false)
       {
         print_error_unexp(asm_context, token);
         return -1;
       }
 
-      var_stack.push_int(token);
-      count++;
+      if (var_stack.push_int(token) != 0) { return -1; }
+      need_operand = false;
     }
       else
     if (token_type == TOKEN_FLOAT)
     {
-      if (need_symbol(count) || var_stack.size() == 3)
+      if (need_operand == false)
       {
         print_error_unexp(asm_context, token);
         return -1;
       }
 
-      var_stack.push_float(token);
-      count++;
+      if (var_stack.push_float(token) != 0) { return -1; }
+      need_operand = false;
     }
       else
     if (token_type == TOKEN_SYMBOL)
     {
-      if (need_number(count))
+      if (need_operand == true)
       {
         Var var;
 
-        if (IS_TOKEN(token, '+') && count == 0)
+        if (IS_TOKEN(token, '+') && var_stack.is_empty())
         {
           // If the expression starts with +.
           // Was needed for Z80 "and (ix+5)".
@@ -137,25 +132,24 @@ int EvalExpression::run(AsmContext *asm_context, Var &answer, bool is_paren)
           oper.set_operator("+");
           var_stack.push_int((uint64_t)0);
           oper_stack.push(oper);
-          count += 2;
         }
           else
         if (IS_TOKEN(token, '-'))
         {
           // Needed for: 6 + -5.
-          parse_unary_new(asm_context, var);
+          if (parse_unary_new(asm_context, var) != 0) { return -1; }
           var.negative();
-          var_stack.push(var);
-          count++;
+          if (var_stack.push(var) != 0) { return -1; }
+          need_operand = false;
         }
           else
         if (IS_TOKEN(token, '~'))
         {
           // Needed for: ~0xfe.
-          parse_unary_new(asm_context, var);
+          if (parse_unary_new(asm_context, var) != 0) { return -1; }
           var.complement();
-          var_stack.push(var);
-          count++;
+          if (var_stack.push(var) != 0) { return -1; }
+          need_operand = false;
         }
           else
         {
@@ -165,15 +159,6 @@ int EvalExpression::run(AsmContext *asm_context, Var &answer, bool is_paren)
       }
         else
       {
-        if (var_stack.is_empty() || need_symbol(count) == false)
-        {
-          printf("Error: Unexpected operator '%s' at %s:%d\n",
-            token,
-            asm_context->tokens.filename,
-            asm_context->tokens.line);
-          return -1;
-        }
-
         Operator oper;
 
         if (oper.set_operator(token) == false)
@@ -182,8 +167,16 @@ int EvalExpression::run(AsmContext *asm_context, Var &answer, bool is_paren)
           return -1;
         }
 
-        oper_stack.push(oper);
-        count++;
+        // Operators already waiting that bind at least as tightly as the
+        // new one (left to right for equal precedence) are executed first.
+        while (oper_stack.is_empty() == false &&
+               oper_stack.get_last_precedence() <= oper.precedence)
+        {
+          if (execute_stack(var_stack, oper_stack) != 0) { return -1; }
+        }
+
+        if (oper_stack.push(oper) != 0) { return -1; }
+        need_operand = true;
       }
     }
       else
@@ -195,25 +188,25 @@ int EvalExpression::run(AsmContext *asm_context, Var &answer, bool is_paren)
 
       return -1;
     }
-
-    if (var_stack.size() == 3)
-    {
-      if (oper_stack.size() != 2)
-      {
-        print_error_unexp(asm_context, token);
-        return -1;
-      }
-
-      if (execute_stack(var_stack, oper_stack) != 0) { return  -1; }
-      count -= 2;
-    }
   }
 
   if (var_stack.is_empty()) { return -1; }
 
-  while (var_stack.size() > 1 && oper_stack.is_empty() == false)
+  // An expression can't end with an operator and an open parenthesis
+  // has to be closed.
+  if (need_operand == true || (is_paren == true && is_closed == false))
   {
-    if (execute_stack(var_stack, oper_stack) != 0) { return  -1; }
+    if (asm_context->pass != 1)
+    {
+      print_error(asm_context, "Incomplete expression");
+    }
+
+    return -1;
+  }
+
+  while (oper_stack.is_empty() == false)
+  {
+    if (execute_stack(var_stack, oper_stack) != 0) { return -1; }
   }
 
   answer = var_stack.pop();
@@ -223,30 +216,14 @@ int EvalExpression::run(AsmContext *asm_context, Var &answer, bool is_paren)
 
 int EvalExpression::execute_stack(VarStack &var_stack, OperStack &oper_stack)
 {
-  Operator oper;
-  Var d;
-  Var s;
+  if (var_stack.size() < 2 || oper_stack.is_empty()) { return -1; }
 
-  if (oper_stack.get_precedence_index() == 0)
-  {
-    oper = oper_stack.pop_first();
+  Operator oper = oper_stack.pop();
+  Var s = var_stack.pop();
+  Var d = var_stack.pop();
 
-    d = var_stack.pop_first();
-    s = var_stack.pop_first();
-
-    if (oper.execute(d, s) != 0) { return -1; }
-    var_stack.push_front(d);
-  }
-    else
-  {
-    oper = oper_stack.pop();
-
-    s = var_stack.pop();
-    d = var_stack.pop();
-
-    if (oper.execute(d, s) != 0) { return -1; }
-    var_stack.push(d);
-  }
+  if (oper.execute(d, s) != 0) { return -1; }
+  var_stack.push(d);
 
   return 0;
 }
